@@ -13,6 +13,7 @@
  *   the device is not modified; when the device refused anything ext2fs_close2
  *   returns non-zero and does NOT free the handle; without a shadow copy the
  *   primary superblock always has to be written, so close always fails.
+ * OUTSIDE: -DORIG=0/1 (fs->orig_super present: word-diff + write_byte route) is written below but not registered: no verdict in 150 s
  */
 #ifndef _GNU_SOURCE
 #define _GNU_SOURCE
@@ -69,8 +70,6 @@ struct vf_in {
 	unsigned int flags;
 	int close_flags;
 	__u16 state;
-	unsigned char orig_differs;
-	__u16 orig_word; unsigned short orig_idx;
 };
 VF_DECLARE_INPUT(struct vf_in, IN)
 #include "vf_input.inc"
@@ -126,13 +125,9 @@ int main(void)
 	vf_fs.flags |= EXT2_FLAG_DIRTY;
 	vf_fs.write_bitmaps = 0;
 #ifdef ORIG
-	/* shadow copy as ext2fs_open2 keeps it: equal to the superblock, or differing in one symbolic 16-bit word */
+	/* shadow copy as ext2fs_open2 keeps it: equal to the in-core superblock; whether the flush changes anything (s_wtime := fs->now = 1000) is chosen per query */
+	vf_sb.s_wtime = ORIG ? 5 : 1000;	/* compile-time: ORIG=1 the flush changes s_wtime, ORIG=0 it changes nothing */
 	vf_orig = vf_sb;
-	ASSUME(IN.orig_differs <= 1 && IN.orig_idx < SUPERBLOCK_SIZE / 2);
-	if (IN.orig_differs)
-		for (i = 0; i < SUPERBLOCK_SIZE / 2; i++)
-			if (i == IN.orig_idx)
-				((__u16 *) &vf_orig)[i] ^= (IN.orig_word | 1);
 	vf_fs.orig_super = &vf_orig;
 #endif
 
@@ -141,7 +136,12 @@ int main(void)
 	PROP(vf_rdonly && !vf_dev_touched, "read-only dirty handle: close does not modify the device");
 	PROP(rc != 0 || vf_wr_refused == 0, "read-only dirty handle: a refused device write makes close fail");
 	PROP(vf_freed == (rc == 0), "close releases the handle exactly on success");
-#ifndef ORIG
+#ifdef ORIG
+	if (!ORIG && (IN.flags & EXT2_FLAG_SUPER_ONLY))
+		PROP(rc == 0 && vf_wr_refused == 0, "read-only dirty handle, SUPER_ONLY, superblock identical to its shadow: nothing is written and close succeeds");
+	else
+		PROP(rc != 0 && vf_wr_refused > 0, "read-only dirty handle: descriptors or a changed superblock word are attempted, refused and reported");
+#else
 	PROP(rc != 0 && vf_wr_refused > 0, "read-only dirty handle without shadow superblock: close always attempts the primary superblock and fails");
 #endif
 	VF_END();
